@@ -8,7 +8,7 @@ TECHNIQUE = "runtime monitoring: progress assertion at every quiescent point (no
 RULE = ("generated definitions (incl. with-items, retry, joins, loops) x hashed outcomes x seeded schedules, free and "
         "with pause/resume/cancel requests and crashes inserted at seeded positions and at every position of base "
         "histories; the four historical stuck shapes (failed with-items item, pending task, with-items in a cycle, "
-        "resume of a finished paused workflow) are generated classes; additionally the decision-shape family (exhaustive in the thorough tier, a rotating slice in the quick tier): every acyclic edge set over 4 tasks with a join x condition succeeded/failed per edge x outcome per task (4128 definitions); non-trivial = history that reached at least one "
+        "resume of a finished paused workflow) are generated classes; additionally the decision-shape family (exhaustive in the thorough tier, a rotating slice in the quick tier): every acyclic edge set over 4 tasks with a join x condition succeeded/failed per edge x outcome per task (4128 definitions); tasks that wait at the provider (an action reports pending or paused and is not in flight: the workflow must rest paused, go on when the action is answered / runs again and the workflow is resumed); actions canceled on the provider side; a pause followed by a cancel; non-trivial = history that reached at least one "
         "quiescent point after at least one completion report; distinct = (definition, history) digest")
 ASSUMPTIONS = ASSUME_SIM + ["liveness is restated as safety at quiescent points, which is exact because the conductor never acts spontaneously"]
 
@@ -16,6 +16,64 @@ ASSUMPTIONS = ASSUME_SIM + ["liveness is restated as safety at quiescent points,
 def nontrivial(run, m):
     sm = mon(run, "status")
     return sm.stats["quiescent_points"] > 0 and any(op[0] == "done" for op in run.script)
+
+
+def parked(job):
+    """tasks that wait at the provider: an action reports `pending` (an inquiry) or `paused` (paused on the provider
+    side) and is then not in flight; the workflow must come to rest `paused` (never sit in pausing / running with
+    nothing in flight), go on when the action runs again or is answered and the workflow is resumed, and finish"""
+    from ovf import workloads
+    from ovf.sim import explore
+    from ovf.sim.provider import h64
+    out = dict(evaluations=0, nontrivial=set(), violations=[], samples=[], counters={}, sets={})
+    C = out["counters"]
+    only = job.get("only")
+    for seed in ([only[0]] if only else range(job["lo"], job["hi"])):
+        m, inputs = workloads.gen_case(job, seed)
+        wf = m.render()
+        if not workloads.inspect_ok(wf):
+            C["definitions_rejected_by_inspection"] = C.get("definitions_rejected_by_inspection", 0) + 1
+            continue
+        for sched in range(job.get("scheds", 2)):
+            if only and len(only) > 1 and sched != only[1]:
+                continue
+            case = dict(wf=wf, inputs=inputs, oseed=h64(job.get("gseed", 0), seed, "o") % 100000, p_fail=job.get("p_fail", 0.15))
+            run = explore.make_run(case, workloads.monitors(job.get("flags")), model=m, label="parked")
+            pol = explore.Policy(pseed=h64(job.get("gseed", 0), seed, sched, "p"))
+            run.request("running")
+            nparked = 0
+            for _ in range(300):
+                run.poll()
+                if run.exc is not None:
+                    break
+                if not run.inflight:
+                    if run.parked:
+                        C["rest_points_with_waiting_actions"] = C.get("rest_points_with_waiting_actions", 0) + 1
+                        out["sets"].setdefault("status_at_rest_with_waiting_actions", set()).add(run.status())
+                        run.unpark(h64(seed, sched, run.step) % len(run.parked))
+                        continue
+                    if run.status() == "paused" and not run.ctl["pause_req"]:
+                        # every waiting action was answered: the provider resumes the workflow
+                        ev = run.request("resuming")
+                        C["resumes_after_answers"] = C.get("resumes_after_answers", 0) + 1
+                        if ev["exc"] is None:
+                            continue
+                    break
+                i = pol.pick(run)
+                a = run.inflight[i]
+                if a["item"] is None and not a.get("was_parked") and nparked < 3 and h64(seed, sched, a["uid"], "park") % 100 < job.get("p_park", 30):
+                    kind = ["pending", "paused"][h64(seed, sched, a["uid"], "kind") % 2]
+                    run.park(i, kind)
+                    nparked += 1
+                    C["parked." + kind] = C.get("parked." + kind, 0) + 1
+                else:
+                    run.complete(i)
+            if run.status() in ("succeeded", "failed") and not run.inflight and run.exc is None:
+                run.render()
+            run.finish()
+            out["evaluations"] += 1
+            workloads.collect(out, job, run, m, (seed, sched), lambda r, mm: nparked > 0)
+    return out
 
 
 def jobs(tier, seed):
@@ -33,6 +91,9 @@ def jobs(tier, seed):
     js += batches("conduct", scale(tier, 160, 3000), scale(tier, 10, 100), gen="dag", gseed=seed + 9,
                   P=dict(P, p_items=0.6, p_retry=0.1, p_expr_conc=0.2, xs_max=4, nmax=5), scheds=2, p_fail=0.35, exotic=0.7,
                   exotic_kinds=["canceled"], name="provider-side-cancel")
+    # actions that wait at the provider (pending / paused tasks)
+    js += batches("parked", scale(tier, 120, 3000), scale(tier, 10, 100), gen="dag", gseed=seed + 10, p_fail=0.15,
+                  P=dict(P, p_items=0.35, p_retry=0.1, p_expr_conc=0.2, xs_max=3, nmax=5), scheds=2, name="pending-and-paused-tasks")
     # pause, then cancel while a with-items task rests between items and other actions still run
     js += batches("ctl_sweep", scale(tier, 40, 1000), scale(tier, 4, 25), gen="dag", gseed=seed + 8, p_fail=0.1,
                   P=dict(p_items=0.55, nmax=4, p_join=0.3, p_retry=0.1, p_expr_conc=0.3, xs_max=3), modes=["pause_then_cancel"],
